@@ -1047,6 +1047,13 @@ class Exec:
             return
         WORLD.default_group = Group(-2, "loader")
         path = self.path(fname)
+        if plan.get("strip_final_newline"):
+            # another tool re-saved the (complete, valid) table without the final line terminator
+            b = model.read_bytes(path)
+            if b and b.endswith(b"\n"):
+                with open(path, "wb") as fh:
+                    fh.write(b[:-1])
+                self.note("table_without_final_newline")
         try:
             st = st_mod.Panoptica_Statistic.from_file(path)
         except Exception as e:  # noqa: BLE001
@@ -1403,6 +1410,20 @@ class Exec:
                 qc, _, _ = make_queries(st_c, file_names, table_c, "C")
                 queries = queries + qc
                 self.note("third_object_from_memory")
+        # a copy of the first object, as a worker process or a cache would hold it
+        if second_object and rng.random() < 0.4:
+            import copy as _copy
+
+            how = rng.choice(["pickle", "deepcopy", "copy"])
+            try:
+                st_p = pickle.loads(pickle.dumps(st)) if how == "pickle" else (_copy.deepcopy(st) if how == "deepcopy" else _copy.copy(st))
+            except Exception as e:  # noqa: BLE001
+                self.v("summary", f"copying the statistics object ({how}) raised {type(e).__name__}: {str(e)[:120]}")
+                st_p = None
+            if st_p is not None:
+                qp, _, _ = make_queries(st_p, file_names, table, "P")
+                queries = queries + qp
+                self.note("copied_object_queried")
         self._qn = 0
         for rnd in range(2):
             rng.shuffle(queries)
